@@ -1,5 +1,93 @@
-(* C02 — placeholder until proofs/PolyDomainFacts.v lands. *)
-From Coq Require Import List. Import ListNotations.
-Require Import Py Sem Term Poly Tactics PolyDomain.
-Example C02_model_runs : poly_order (Some [2%nat]) = Some [2%nat].
-Proof. reflexivity. Qed.
+(* C02 — the quotient composed with the divisor refines the dividend.
+   Same construction as C01.  The quotient makes one call to the refinement test (dividend assumptions vs divisor
+   assumptions), which for polyhedra is sound only up to REFINEMENT_TOLERANCE; the theorem is therefore stated pointwise in
+   that one premise, with the unconditional corollaries: the test did not answer True; exact containment of the assumptions;
+   and the tolerance-aware form.  Statements only; proofs in proofs/PolyDomainFacts.v. *)
+From Coq Require Import List String Bool QArith Reals.
+Import ListNotations.
+Require Import Py ListsGen ConstGen AlgebraGen AlgebraSpec IfaceSpec Sem Term Poly Tactics PolyDomain PolySpec TermFacts PolyFacts TacticsFacts PolyDomainFacts EqFacts PolyKeepFacts.
+
+(* pointwise in the refinement premise *)
+Theorem C02 :
+  forall O : oracle,
+       lp_spec 0 O ->
+       forall (c c1 : pcontract O) (add : option (list var)) (sp : bool) (od : option (list nat))
+         (q : pcontract O) (st : list stats),
+       wfpc c ->
+       wfpc c1 ->
+       ifpc c ->
+       ifpc c1 ->
+       poly_quotient_tactics O c c1 add sp od = inl (q, st) ->
+       wfpc q /\
+       (forall rho : val,
+        (poly_refines O (c_a c) (c_a c1) = inl true -> sat_list rho (c_a c) -> sat_list rho (c_a c1)) ->
+        sat_list rho (c_a c) ->
+        (sat_list rho (c_a c1) -> sat_list rho (c_g c1)) ->
+        (sat_list rho (c_a q) -> sat_list rho (c_g q)) ->
+        sat_list rho (c_a c1) /\ sat_list rho (c_a q) /\ sat_list rho (c_g c)).
+Proof. exact @C02_poly. Qed.
+Print Assumptions C02.
+
+(* the branch where the refinement test answered False or failed: unconditional *)
+Theorem C02_refines_not_true :
+  forall O : oracle,
+       lp_spec 0 O ->
+       forall (c c1 : pcontract O) (add : option (list var)) (sp : bool) (od : option (list nat))
+         (q : pcontract O) (st : list stats),
+       wfpc c ->
+       wfpc c1 ->
+       ifpc c ->
+       ifpc c1 ->
+       poly_refines O (c_a c) (c_a c1) <> inl true ->
+       poly_quotient_tactics O c c1 add sp od = inl (q, st) ->
+       forall rho : val,
+       sat_list rho (c_a c) ->
+       (sat_list rho (c_a c1) -> sat_list rho (c_g c1)) ->
+       (sat_list rho (c_a q) -> sat_list rho (c_g q)) ->
+       sat_list rho (c_a c1) /\ sat_list rho (c_a q) /\ sat_list rho (c_g c).
+Proof. exact @C02_poly_refines_not_true. Qed.
+Print Assumptions C02_refines_not_true.
+
+(* dividend assumptions exactly contained in the divisor's: unconditional *)
+Theorem C02_contained :
+  forall O : oracle,
+       lp_spec 0 O ->
+       forall (c c1 : pcontract O) (add : option (list var)) (sp : bool) (od : option (list nat))
+         (q : pcontract O) (st : list stats),
+       wfpc c ->
+       wfpc c1 ->
+       ifpc c ->
+       ifpc c1 ->
+       (forall rho : val, sat_list rho (c_a c) -> sat_list rho (c_a c1)) ->
+       poly_quotient_tactics O c c1 add sp od = inl (q, st) ->
+       forall rho : val,
+       sat_list rho (c_a c) ->
+       (sat_list rho (c_a c1) -> sat_list rho (c_g c1)) ->
+       (sat_list rho (c_a q) -> sat_list rho (c_g q)) ->
+       sat_list rho (c_a c1) /\ sat_list rho (c_a q) /\ sat_list rho (c_g c).
+Proof. exact @C02_poly_contained. Qed.
+Print Assumptions C02_contained.
+
+(* tolerance-aware form through C03_sound *)
+Theorem C02_tolerant :
+  forall O : oracle,
+       lp_spec 0 O ->
+       forall (c c1 : pcontract O) (add : option (list var)) (sp : bool) (od : option (list nat))
+         (q : pcontract O) (st : list stats),
+       wfpc c ->
+       wfpc c1 ->
+       ifpc c ->
+       ifpc c1 ->
+       all_have_vars (c_a c) = true ->
+       all_have_vars (c_a c1) = true ->
+       small_consts (c_a c1) ->
+       poly_quotient_tactics O c c1 add sp od = inl (q, st) ->
+       forall rho : val,
+       (Forall (sat_tol REFINEMENT_TOLERANCE rho) (c_a c1) -> sat_list rho (c_a c1)) ->
+       sat_list rho (c_a c) ->
+       (sat_list rho (c_a c1) -> sat_list rho (c_g c1)) ->
+       (sat_list rho (c_a q) -> sat_list rho (c_g q)) ->
+       sat_list rho (c_a c1) /\ sat_list rho (c_a q) /\ sat_list rho (c_g c).
+Proof. exact @C02_poly_tolerant. Qed.
+Print Assumptions C02_tolerant.
+
